@@ -9,7 +9,7 @@ RULE = ("histories of kernel events (spawn/exit->zombie/reap/PID reuse by a live
         "calls over PIDs {0,1,2,3,7,2^31-1} (Process() also on -1,-7,5,2^31,2^64), start ticks from 21 values (bases 0..2^40, 10^12, each +0/+1/+2) with PID reuse at adjacent ticks (p=0.6), process names with 0-3 blanks/parentheses/15 bytes, thread-count changes, incl. adjacent "
         "ticks, drawn from a weighted grammar with motifs 'process ends, 0-2 queries (is_running/ppid/process_iter/"
         "create_time/boot_time/==/hash), PID reused or not, then a signal or setter on the old object' and 'clock step + "
-        "boot_time() + second object'; PID 7 is the PID psutil was imported under (os.getpid() patched during import: forked-child situation); wait() caching the exit code then PID reuse; process_iter() generators suspended between PIDs while other events happen; two-step calls whose window holds kernel events applied by the fake kernel at the moment psutil issues its system call (reap+respawn = the inherent TOCTOU, exit, reap, thread, clock, nothing); psutil.Popen objects whose child is already gone; guarded calls inside (nested) oneshot() blocks before/after exit+reuse, as_dict(); 30% of objects are psutil.Popen over a stub subprocess.Popen; every signal method and setter with valid and invalid arguments. Class = most specific "
+        "boot_time() + second object'; 150 live cases per quick run: 3-8 setter calls through the real C extension on a throw-away child, CPU numbers/nice/ionice/rlimit values at the 2^31, 2^32, 2^40, 2^63, 2^64 boundaries (k*2^32 + eligible CPU etc.), kernel-side mask/nice/ioprio/limits read back; PID 7 is the PID psutil was imported under (os.getpid() patched during import: forked-child situation); wait() caching the exit code then PID reuse; process_iter() generators suspended between PIDs while other events happen; two-step calls whose window holds kernel events applied by the fake kernel at the moment psutil issues its system call (reap+respawn = the inherent TOCTOU, exit, reap, thread, clock, nothing); psutil.Popen objects whose child is already gone; guarded calls inside (nested) oneshot() blocks before/after exit+reuse, as_dict(); 30% of objects are psutil.Popen over a stub subprocess.Popen; every signal method and setter with valid and invalid arguments. Class = most specific "
         "feature reached (set-reused-after-gone, set-reused, pid0, set-gone, set-zombie, ...). Non-trivial = some signal/"
         "setter/query on an object was executed; distinct = distinct canonical history.")
 TRUSTED = PC.TRUSTED
@@ -17,7 +17,7 @@ ASSUMPTIONS = PC.ASSUMPTIONS
 EXHAUSTIVE = {"thorough": "all well-formed histories of length 6 over {spawn 5@100, spawn 5@900, exit 5, reap 5, Process(5), "
                           "is_running(o0), kill(o0), nice(o0,1)} that start with spawn 5@100; Process(5)"}
 SPEC_KINDS = ("set", "new", "race")
-N = {"quick": 900, "thorough": 14000, "search": 2500}
+N = {"quick": 750, "thorough": 12000, "search": 2500}
 
 
 def _alphabet(sh):
@@ -72,7 +72,9 @@ MANIFEST = {
             "NoSuchProcess and attempts no system call; with no owner it raises NoSuchProcess (ValueError for invalid arguments) and "
             "nothing is delivered; no os.kill is ever attempted with pid <= 0, Process(negative) is a ValueError, a signal on a PID-0 "
             "object is refused; each call attempts at most one system call, exactly (pid of the object, requested signal/value), and "
-            "a delivered one is received by the very process the object was created for. The call is also modelled in two steps "
+            "a delivered one is received by the very process the object was created for. Through the real C extension (Proc/Live.v, C conversions "
+            "with explicit widths): cpu_affinity([n]) sets exactly {n} or raises ValueError with the mask unchanged for EVERY integer n (no "
+            "wrap-around at 2^31/2^32/2^40/2^63); nice/ionice/rlimit set exactly or raise with nothing changed. The call is also modelled in two steps "
             "(identity probe, kernel events in the window, system call): with no event in the window it equals the atomic call; with a "
             "reap+spawn in the window delivery to the new owner is a proved counterexample (inherent TOCTOU), while 'at most one system "
             "call, naming exactly the object's PID and value' holds for every window. Objects include psutil.Popen with a child "
